@@ -36,6 +36,13 @@ impl<T> Ctx<T> {
     pub fn ev(&self, json: String) {
         let mut log = self.log.borrow_mut();
         log.nev += 1;
+        if log.nev > 200_000 {
+            // a run that keeps calling back without end: the parser under test does not terminate.
+            // Leave at once (the harness records the input from the progress file) instead of
+            // filling the memory with events.
+            eprintln!("RUNAWAY");
+            std::process::exit(3);
+        }
         if self.want_events {
             log.events.push(json);
         }
